@@ -395,6 +395,9 @@ impl IncrementalSigner {
         signature: &Signature,
         public_key: &PublicKey,
     ) -> Result<(), Error> {
+        if signature.len() != CRYPTO_SIGN_BYTES || public_key.len() != CRYPTO_SIGN_PUBLICKEYBYTES {
+            return Err(dryoc_error!("signature or public key has the wrong length"));
+        }
         crypto_sign_final_verify(self.state, signature.as_array(), public_key.as_array())?;
 
         Ok(())
